@@ -6,6 +6,8 @@ import SplVerif.Model.Table
 import SplVerif.Spec.Typing
 import SplVerif.Spec.Grammar
 import SplVerif.Lemmas.TypingSound
+import SplVerif.Lemmas.ParseClean
+import SplVerif.Lemmas.IncLex
 
 namespace Spl.C03
 
@@ -69,6 +71,29 @@ theorem welltyped_diagnostics (text : List Char) (toks : List Token) (prog : Pro
   · simp [AnalyzedSource.new, hl, hp, hb, ha]
   · intro he
     simp [AnalyzedSource.errors, he, convErrs]
+
+/-- the tokens of a lexed text end with `Eof` -/
+theorem lex_ends_with_token (text : List Char) (toks : List Token) (hl : lex text = .ok toks) :
+    ParseConform.EndsWithToken toks.toArray := by
+  have hl' : toks = lexL text 0 ++ [eofToken (utf8Len text)] := by
+    simp only [lex, lexGo_eq_lexL] at hl
+    cases hl; rfl
+  subst hl'
+  refine ⟨eofToken (utf8Len text), ?_, by simp [eofToken, Token.kind, TokenType.kind]⟩
+  simp
+
+/-- **A valid SPL text gets no diagnostics at all** (the first sentence of the property, for the
+    model, end to end): if the text lexes, the independent grammar specification derives a program
+    from its tokens and the independent typing specification accepts that program, then
+    `AnalyzedSource::new` succeeds, its tree is that program, and it publishes nothing.
+    (`parse_conforms` + `parse_errors_nil` + `welltyped_analysis_identity`; the lexical side is
+    C06's `lex_conforms`.) -/
+theorem valid_text_no_diagnostics (text : List Char) (toks : List Token) (p : Program)
+    (hl : lex text = .ok toks) (hg : Grammar.parse toks = some p) (hw : Typing.wellTyped p = true) :
+    ∃ d, AnalyzedSource.new text = .ok d ∧ d.ast = p ∧ d.errors = .ok [] := by
+  have hp := ParseConform.parse_conforms toks p hg (lex_ends_with_token text toks hl)
+  obtain ⟨d, h1, h2, _, _, h5⟩ := welltyped_diagnostics text toks p hl hp hw
+  exact ⟨d, h1, h2, h5 (ParseConform.parse_errors_nil toks p hg)⟩
 
 /-- The specification's verdict on a text: `some true` = syntactically valid and well-typed. -/
 def specVerdict (text : String) : Option Bool :=
